@@ -13,19 +13,20 @@ import numpy as np
 from hypothesis import strategies as st
 
 from ..core import Part, Violation
-from ..gens import loguniform, seeds
+from ..gens import seeds
 
 PROPERTY = "C14"
 LEVEL = "exploration"
 RULE = ("histories of 1..12 (thorough ..20) requests generate(n) [n 1..200, "
-        "thorough ..1e5] / skip(n) [n up to 1e10, cumulative position <= "
-        "1e10] / shape change on a seeded JakesSampleGenerator with Fd*Ts in "
-        "{0} u [1e-5,0.5], Ts in 1e-9..1 (log-uniform, plus powers of two), "
-        "L 1..16, shape None/int/tuple up to (3,2,2); a start position >= 1e6 "
-        "is a forced class (about 45% of histories); non-trivial = two "
-        "generate requests separated by a skip, or a generate request "
-        "starting at a position > 1e6; distinct = SHA-1 of the case "
-        "description")
+        "occasionally ..5000, thorough ..1e5] / skip(n) [n up to 1e10, "
+        "cumulative position <= 1e10] / shape change on a seeded "
+        "JakesSampleGenerator with Fd*Ts in {0} u [1e-5,0.5], Ts in 1e-9..1 "
+        "(m*10^-d, plus powers of two), L 1..16, shape None/int/tuple up to "
+        "(3,2,2); a start position >= 1e6 is a forced class (about 45% of "
+        "histories); plus the module level generate_jakes_samples() chunked "
+        "through its returned time (part func); non-trivial = two generate "
+        "requests separated by a skip, or a generate request starting at a "
+        "position > 1e6; distinct = SHA-1 of the case description")
 LEVEL_TEXT = ("Generated-input search (Hypothesis, seeded, sharded) over "
               "request histories of Jakes generators against an independent "
               "extended-precision evaluation of the sum-of-sinusoids model at "
@@ -33,8 +34,9 @@ LEVEL_TEXT = ("Generated-input search (Hypothesis, seeded, sharded) over "
               "request and a same-seed twin that obtains each contiguous "
               "stretch in one request. Absence of violations is not proven.")
 LEVEL_NOTE = ("time base judged with a resolution of 1e-8*N_generated + "
-              "16*eps*k*(N_generated+ops+4) sample periods (k = position): double-precision time stepping is accepted as rounding "
-              "up to that amount, a shift by one sample is not")
+              "16*eps*k*(N_generated+ops+4) sample periods (k = position): "
+              "double-precision time stepping is accepted as rounding up to "
+              "that amount, a shift by one sample is not")
 TECHNIQUE = ("property-based testing (Hypothesis): operation histories "
              "against a position-tracking reference model + metamorphic "
              "re-chunking twin")
@@ -161,6 +163,8 @@ def _history(draw, tier):
             continue
         if big_n and draw(st.integers(0, 2)) == 0:
             n = draw(_logint(200, 10 ** 5))
+        elif draw(st.integers(0, 19)) == 7:
+            n = draw(_logint(200, 5000))      # both tiers: a longer request
         else:
             n = draw(small_n)
         ops.append(["gen", n])
@@ -193,8 +197,8 @@ def _func_case(draw, tier):
 
 
 PARTS = [
-    Part("hist", _history, quick=3200, thorough=80000, quick_shards=8),
-    Part("func", _func_case, quick=600, thorough=12000, quick_shards=4),
+    Part("hist", _history, quick=3200, thorough=60000, quick_shards=8),
+    Part("func", _func_case, quick=600, thorough=10000, quick_shards=4),
 ]
 
 
